@@ -30,6 +30,8 @@ inductive Step where
   | skipE (e : Expr)                     -- `view = view[e:]`
   | guardLen (e : Expr)                  -- `if len(view) < e: raise ValueError(...)`
   | beInt (name src : String)            -- `int.from_bytes(src, byteorder="big")` (in the constructor call), bound to `name`
+  | magicLit (a b : Nat) (m : Bytes)     -- `view[a:b].tobytes() != b"..."` (a disjunct of the magic test): ValueError
+  | textSub (name : String) (lo hi : Expr) (k : Nat)  -- `name = view[lo : hi - k].tobytes().decode("utf-16-le")`
   deriving DecidableEq, Repr
 
 structure Env where
@@ -62,6 +64,10 @@ def run (magic : Bytes) : List Step → Bytes → Env → R Env
   | .skipE x :: rest, v, e => run magic rest (v.drop (x.eval e)) e
   | .guardLen x :: rest, v, e => if v.length < x.eval e then .error .valueError else run magic rest v e
   | .beInt n src :: rest, v, e => run magic rest v (e.setInt n (Py.fromBE (e.bytes src)))
+  | .magicLit a b m :: rest, v, e => if Py.sliceN v a b ≠ m then .error .valueError else run magic rest v e
+  | .textSub n lo hi k :: rest, v, e =>
+    let raw := Py.slice v (lo.eval e : Int) ((hi.eval e : Int) - k)
+    if Gkdi.utf16Valid raw then run magic rest v (e.setBytes n raw) else .error .valueError
 
 /-- the local variable bound to constructor keyword `k` -/
 def arg (ret : List (String × String)) (k : String) : String := (ret.lookup k).getD ""
